@@ -1,10 +1,402 @@
+// Package gen is the online, state-aware script generator of `vharness chain`. Every line
+// it emits is first printed, then executed through real.Interp exactly as `replay` would
+// execute it, so script files replay to byte-identical traces.
 package gen
 
+import (
+	"encoding/json"
+	"fmt"
+	"math/rand"
+	"os"
+	"path/filepath"
+	"sort"
+	"strconv"
+	"strings"
+	"sync"
+	"time"
+
+	"verif/harness/internal/real"
+	"verif/harness/internal/script"
+)
+
+// Options of a campaign.
 type Options struct {
 	Seed                         int64
 	Scripts, Blocks, MaxTx, Jobs int
 	Focus, OutDir                string
 }
 
-func Focuses() []string { return []string{"all"} }
-func Run(o Options) error { return nil }
+// weights is the operation mix selected by -focus.
+type weights struct {
+	kinds      []string
+	weight     []int
+	total      int
+	exactPct   int // exact fee on wrk/bcn transactions
+	execPct    int // wrap the first message into authz.exec
+	multiPct   int // multi-message transactions
+	scramble   int // signer focus: random signer / named address
+	granterPct int // use an existing fee grant
+	govPct     int // GOVEXEC per block
+	maxCheck   int // CHECK probes per block gap
+	longSteps  bool
+}
+
+// txKinds are the kinds that can appear in transactions (parameter updates go through GOVEXEC).
+var txKinds = []string{
+	"ent.raise", "ent.decide", "ent.wl", "wrk.reg", "wrk.rec", "wrk.buy", "bcn.reg", "bcn.rec", "bcn.buy",
+	"str.create", "str.claim", "str.topup", "str.rate", "str.cancel", "bank.send",
+	"authz.grant", "authz.revoke", "authz.exec", "feegrant.grant",
+}
+
+var focusWeights = map[string]map[string]int{
+	"all": {},
+	"ent": {"ent.raise": 8, "ent.decide": 14, "ent.wl": 4, "wrk.reg": 2, "wrk.rec": 3, "bcn.reg": 1, "bcn.rec": 2, "bank.send": 2},
+	"reg": {"wrk.reg": 4, "wrk.rec": 12, "wrk.buy": 6, "bcn.reg": 4, "bcn.rec": 12, "bcn.buy": 6, "bank.send": 1},
+	"stream": {"str.create": 6, "str.claim": 9, "str.topup": 4, "str.rate": 4, "str.cancel": 2, "bank.send": 2},
+	"fees": {"wrk.reg": 3, "wrk.rec": 8, "wrk.buy": 5, "bcn.reg": 3, "bcn.rec": 8, "bcn.buy": 5, "ent.raise": 4, "ent.decide": 6,
+		"feegrant.grant": 3, "bank.send": 1},
+	"authz":  {"authz.grant": 10, "authz.revoke": 2, "authz.exec": 20},
+	"gov":    {},
+	"signer": {},
+}
+
+// Focuses lists the accepted -focus names.
+func Focuses() []string {
+	var out []string
+	for k := range focusWeights {
+		out = append(out, k)
+	}
+	sort.Strings(out)
+	return out
+}
+
+func newWeights(focus string) (*weights, error) {
+	fw, ok := focusWeights[focus]
+	if !ok {
+		return nil, fmt.Errorf("unknown focus %q (want %s)", focus, strings.Join(Focuses(), "|"))
+	}
+	w := &weights{exactPct: 70, execPct: 10, multiPct: 15, granterPct: 10, govPct: 5, maxCheck: 1}
+	for _, k := range txKinds {
+		x := fw[k]
+		if len(fw) == 0 || focus == "authz" && x == 0 {
+			x = 1 // uniform, or background traffic that creates state for authz
+		}
+		if x > 0 {
+			w.kinds, w.weight, w.total = append(w.kinds, k), append(w.weight, x), w.total+x
+		}
+	}
+	switch focus {
+	case "fees":
+		w.exactPct, w.granterPct, w.maxCheck, w.execPct = 40, 35, 4, 5
+	case "authz":
+		w.execPct = 25
+	case "gov":
+		w.govPct = 45
+	case "signer":
+		w.scramble = 60
+	case "stream":
+		w.longSteps = true
+	}
+	return w, nil
+}
+
+// Counts of outcomes.
+type Counts struct{ Ok, Err, Panic int }
+
+func (c *Counts) add(class string) {
+	switch class {
+	case "ok":
+		c.Ok++
+	case "err":
+		c.Err++
+	default:
+		c.Panic++
+	}
+}
+
+// Stats is written to stats.json. Kinds: the outcome of a single-message transaction is
+// counted under its message kind and, for authz.exec, also once as "authz.exec>KIND" for every
+// direct payload kind; multi-message transactions are counted under "multi" (any failing
+// message fails them all); CHECK probes as "check:…"; GOVEXEC lines as "gov:KIND".
+type Stats struct {
+	Seed                                  int64
+	Focus                                 string
+	Scripts, Blocks, Txs, Checks, GovExec int
+	BeginPanics, EndPanics                int
+	Kinds                                 map[string]*Counts
+	MsgsPerTx, StrLen                     map[string]int
+	WallSeconds                           float64
+}
+
+func newStats() *Stats {
+	return &Stats{Kinds: map[string]*Counts{}, MsgsPerTx: map[string]int{}, StrLen: map[string]int{}}
+}
+
+func (s *Stats) count(key, class string) {
+	if s.Kinds[key] == nil {
+		s.Kinds[key] = &Counts{}
+	}
+	s.Kinds[key].add(class)
+}
+
+func (s *Stats) countTx(prefix string, t script.Tx, class string) {
+	if len(t.Msgs) > 1 {
+		s.count(prefix+"multi", class)
+		return
+	}
+	seen := map[string]bool{}
+	for _, m := range t.Msgs {
+		keys := []string{prefix + m.Kind}
+		for _, sub := range m.Sub {
+			keys = append(keys, prefix+"authz.exec>"+sub.Kind)
+		}
+		for _, k := range keys {
+			if !seen[k] {
+				seen[k] = true
+				s.count(k, class)
+			}
+		}
+	}
+}
+
+func (s *Stats) merge(o *Stats) {
+	s.Scripts, s.Blocks, s.Txs, s.Checks, s.GovExec = s.Scripts+o.Scripts, s.Blocks+o.Blocks, s.Txs+o.Txs, s.Checks+o.Checks, s.GovExec+o.GovExec
+	s.BeginPanics, s.EndPanics = s.BeginPanics+o.BeginPanics, s.EndPanics+o.EndPanics
+	for k, c := range o.Kinds {
+		if s.Kinds[k] == nil {
+			s.Kinds[k] = &Counts{}
+		}
+		s.Kinds[k].Ok, s.Kinds[k].Err, s.Kinds[k].Panic = s.Kinds[k].Ok+c.Ok, s.Kinds[k].Err+c.Err, s.Kinds[k].Panic+c.Panic
+	}
+	for k, n := range o.MsgsPerTx {
+		s.MsgsPerTx[k] += n
+	}
+	for k, n := range o.StrLen {
+		s.StrLen[k] += n
+	}
+}
+
+func itoa(i int) string { return strconv.Itoa(i) }
+
+// G is the generator state of one script.
+type G struct {
+	rng       *rand.Rand
+	w         *weights
+	st        *Stats
+	n         int // scenario accounts
+	nextN     int
+	execKinds []string
+}
+
+func (g *G) next() int { g.nextN++; return g.nextN }
+
+// Run generates and executes o.Scripts scripts in parallel and writes scripts, traces and stats.
+func Run(o Options) error {
+	w, err := newWeights(o.Focus)
+	if err != nil {
+		return err
+	}
+	if o.Scripts < 0 || o.Blocks < 0 || o.MaxTx < 0 {
+		return fmt.Errorf("negative size")
+	}
+	if o.Jobs < 1 {
+		o.Jobs = 1
+	}
+	if err := os.MkdirAll(o.OutDir, 0o755); err != nil {
+		return err
+	}
+	start := time.Now()
+	total := newStats()
+	total.Seed, total.Focus = o.Seed, o.Focus
+	var mu sync.Mutex
+	var firstErr error
+	jobs := make(chan int)
+	var wg sync.WaitGroup
+	for j := 0; j < o.Jobs; j++ {
+		wg.Add(1)
+		go func() {
+			defer wg.Done()
+			for k := range jobs {
+				st, err := one(o, w, k)
+				mu.Lock()
+				if err != nil && firstErr == nil {
+					firstErr = fmt.Errorf("script s%d: %v", k, err)
+				}
+				if st != nil {
+					total.merge(st)
+				}
+				mu.Unlock()
+			}
+		}()
+	}
+	for k := 0; k < o.Scripts; k++ {
+		jobs <- k
+	}
+	close(jobs)
+	wg.Wait()
+	if firstErr != nil {
+		return firstErr
+	}
+	total.WallSeconds = time.Since(start).Seconds()
+	bz, _ := json.MarshalIndent(total, "", "  ")
+	return os.WriteFile(filepath.Join(o.OutDir, "stats.json"), append(bz, '\n'), 0o644)
+}
+
+var steps = []time.Duration{0, 0, 400 * time.Millisecond, 400 * time.Millisecond, time.Second, time.Second, time.Second,
+	5 * time.Second, 5 * time.Second, 5 * time.Second, 29 * time.Second, 31 * time.Second, 31 * time.Second, time.Hour, 365 * 24 * time.Hour}
+
+// one generates, executes and writes script k.
+func one(o Options, w *weights, k int) (st *Stats, err error) {
+	rng := rand.New(rand.NewSource(o.Seed*1_000_003 + int64(k)))
+	home, err := os.MkdirTemp("", "vharness-home-")
+	if err != nil {
+		return nil, err
+	}
+	defer os.RemoveAll(home)
+	st = newStats()
+	st.Scripts = 1
+	g := &G{rng: rng, w: w, st: st}
+	for _, kd := range txKinds {
+		if kd != "authz.exec" {
+			g.execKinds = append(g.execKinds, kd)
+		}
+	}
+	ip := &real.Interp{Home: home}
+	var lines, trace []string
+	emit := func(line string) ([]string, error) {
+		lines = append(lines, line)
+		out, err := ip.Exec(line)
+		if err != nil {
+			return nil, fmt.Errorf("generated line rejected: %q: %v", line, err)
+		}
+		trace = append(trace, out...)
+		return out, nil
+	}
+	defer func() { // write what was produced, also on error, for diagnosis
+		base := filepath.Join(o.OutDir, fmt.Sprintf("s%d", k))
+		e1 := os.WriteFile(base+".script", []byte(strings.Join(lines, "\n")+"\n"), 0o644)
+		e2 := os.WriteFile(base+".impl", []byte(strings.Join(trace, "\n")+"\n"), 0o644)
+		for _, e := range []error{e1, e2} {
+			if err == nil {
+				err = e
+			}
+		}
+	}()
+
+	gen := g.genesis()
+	for _, l := range gen.Lines() {
+		if _, err := emit(l); err != nil {
+			return st, err
+		}
+	}
+	now := time.Unix(gen.Time, 0).UTC()
+	for b := 0; b < o.Blocks; b++ {
+		for c := g.rng.Intn(w.maxCheck + 1); c > 0; c-- {
+			t := g.tx(newView(ip.R, ip.R.CheckCtx()), true)
+			if _, err := emit(t.Line("CHECK")); err != nil {
+				return st, err
+			}
+			st.Checks++
+			st.countTx("check:", t, ip.Last.Class)
+		}
+		now = now.Add(steps[g.rng.Intn(len(steps))])
+		if w.longSteps && g.chance(3) {
+			now = now.AddDate(300, 0, 0) // beyond the range of time.Duration and of UnixNano
+		}
+		if _, err := emit(fmt.Sprintf("BEGIN %d %d", now.Unix(), now.Nanosecond())); err != nil {
+			return st, err
+		}
+		if ip.Stopped() {
+			st.BeginPanics++
+			break
+		}
+		st.Blocks++
+		ntx := g.rng.Intn(o.MaxTx + 1)
+		var govAt []int // positions (tx index) before which a GOVEXEC line is placed
+		var govKinds []string
+		for n := 0; n < 2 && g.chance(w.govPct); n++ {
+			govAt = append(govAt, g.rng.Intn(ntx+1))
+		}
+		sort.Ints(govAt)
+		for i := 0; i <= ntx; i++ {
+			for len(govAt) > 0 && govAt[0] == i {
+				govAt = govAt[1:]
+				m := g.govMsg(newView(ip.R, ip.R.DeliverCtx()))
+				if _, err := emit(fmt.Sprintf("GOVEXEC %d %s", g.next(), m)); err != nil {
+					return st, err
+				}
+				govKinds = append(govKinds, m.Kind)
+			}
+			if i == ntx {
+				break
+			}
+			t := g.tx(newView(ip.R, ip.R.DeliverCtx()), false)
+			if _, err := emit(t.Line("TX")); err != nil {
+				return st, err
+			}
+			st.Txs++
+			st.countTx("", t, ip.Last.Class)
+		}
+		out, err := emit("END")
+		if err != nil {
+			return st, err
+		}
+		if ip.Stopped() {
+			st.EndPanics++
+			break
+		}
+		for i, l := range out[1:] { // RG n ok|err, in GOVEXEC order
+			st.GovExec++
+			st.count("gov:"+govKinds[i], l[strings.LastIndexByte(l, ' ')+1:])
+		}
+		if _, err := emit("COMMIT"); err != nil {
+			return st, err
+		}
+	}
+	return st, nil
+}
+
+// genesis draws the scenario genesis.
+func (g *G) genesis() *script.Genesis {
+	const base = "1000000000000000000nund,1000000000000000000000000000000atoken,1000000000000btoken"
+	gs := &script.Genesis{Time: 1_700_000_000}
+	gs.MarkAll()
+	g.n = 6 + g.rng.Intn(5)
+	for i := 0; i < g.n; i++ {
+		gs.Accts = append(gs.Accts, script.Acct{Kind: "base", Coins: base})
+	}
+	if g.chance(50) {
+		gs.Accts[g.n-1] = script.Acct{Kind: "none"}
+	}
+	if g.chance(50) {
+		gs.Accts[g.n-2] = script.Acct{Kind: "vest", Coins: "1000000000000000000nund", Vesting: "1000000000000000000nund",
+			End: gs.Time + 10*365*24*3600}
+	}
+	ns := 1 + g.rng.Intn(5)
+	for i := 0; i < ns; i++ {
+		tok := A(i)
+		if g.chance(8) {
+			tok = fmt.Sprintf("U%d", i)
+		}
+		gs.Ent.Signers = append(gs.Ent.Signers, tok)
+	}
+	gs.Ent.Denom, gs.Ent.Min, gs.Ent.Limit = "nund", uint64(1+g.rng.Intn(ns)), 30
+	for i := 0; i < g.n; i++ {
+		if g.chance(45) {
+			gs.Ent.WL = append(gs.Ent.WL, A(i))
+		}
+	}
+	gs.Ent.Sid = []uint64{1, 1, 1, 5}[g.rng.Intn(4)]
+	fees := func() script.Fees {
+		f := script.Fees{Denom: "nund", Reg: 24, Rec: 2, Buy: 2}
+		if g.chance(35) {
+			f.Reg, f.Rec, f.Buy = 1_000_000_000_000, 1_000_000_000, 5_000_000_000
+		}
+		l := [][2]uint64{{3, 6}, {2, 2}, {1, 5}, {200, 300}}[g.rng.Intn(4)]
+		f.Def, f.Max, f.Sid = l[0], l[1], []uint64{1, 1, 7}[g.rng.Intn(3)]
+		return f
+	}
+	gs.Wrk, gs.Bcn = fees(), fees()
+	gs.StrFee = g.pick("0", "1", "10000000000000000", "500000000000000000", "1000000000000000000")
+	return gs
+}
